@@ -1,7 +1,7 @@
 ------------------------------ MODULE MC_DiffU ------------------------------
 (* Design-level check of the stream model on plain `diff -u` / `diff -ru` input (Env_DiffU). *)
 EXTENDS Naturals, Sequences, FiniteSets, TLC, Json
-CONSTANTS NF, MaxLen, MaxHunks, MaxOld, MaxNew, Titled, Ambig, Buf, Fixes, ColorOnly, ReplayLen
+CONSTANTS NF, MaxLen, MaxHunks, MaxOld, MaxNew, Titled, Ambig, Buf, Fixes, ColorOnly, Modes, ReplayLen
 VARIABLES hist, gs, s
 E == INSTANCE Env_DiffU
 I == INSTANCE Impl_Stream
